@@ -307,7 +307,8 @@ def run(ctx):
     # tracked type, OpExtInst with fewer than two operands or a non-literal instruction number under an imported set)
     E = {r["name"]: r for r in g.core}
     raw = []
-    for tool in list(range(0, 18)) + [0xffff, 255]:
+    # (tool ids are 16-bit: named ones below 18, and ids whose low or high byte alone would look like a named one)
+    for tool in list(range(0, 18)) + [0xffff, 255] + [256 + k for k in range(0, 18)] + [(hi << 8) | lo for hi in (1, 2, 0x7f, 0x80, 0xff) for lo in (0, 1, 8, 15, 16, 17)]:
         for low in (0, 1):
             raw.append(f"disasraw {0x00010000 | (tool % 7) << 8} {(tool << 16) | low} {tool + 1} - - -")
     lit, idref, ext = g.vix["LiteralBit32"], g.vix["IdRef"], g.vix["LiteralExtInstInteger"]
